@@ -105,7 +105,9 @@ def pJson : Nat → P Json
         let z ← pInt body
         if 0 ≤ z then
           if z ≤ (i64Max : Int) then some (.num (.pos (UInt64.ofNat z.toNat)), r) else none
-        else if i64Min ≤ z then some (.num (.neg (Int64.ofInt z)), r) else none
+        else if i64Min ≤ z then
+          if h : Int64.ofInt z < 0 then some (.num (.neg ⟨Int64.ofInt z, h⟩), r) else none
+        else none
       | some 'u' => do
         let n ← body.toNat?
         if n < 2 ^ 64 then some (.num (.pos (UInt64.ofNat n)), r) else none
@@ -136,11 +138,14 @@ def pCalEntry : P (String × Option Int) := fun ts => do
   match ts with
   | t :: r =>
     if t == "n" then some ((s, none), r)
-    else if t.startsWith "z" then (pInt (t.drop 1).toString).map fun z => ((s, some z), r)
+    else if t.startsWith "z" then do
+      let z ← pInt (t.drop 1).toString
+      if i64Min ≤ z ∧ z ≤ (i64Max : Int) then some ((s, some z), r) else none
     else none
   | [] => none
 
-def libOf (tbl : List (String × Option Int)) : TimeLib := ⟨fun s => (tbl.lookup s).join⟩
+def libOf (tbl : List (String × Option Int)) : TimeLib :=
+  ⟨fun s => (tbl.lookup s).join.map Int64.ofInt⟩
 
 /-- Every top-level string of the payload must have its (model-)trimmed text in the table:
 the harness lists them all, so a miss means the two `trim`s disagree. -/
@@ -162,7 +167,7 @@ def showStored : Json → String
   | .null => "n"
   | .bool _ => "b"
   | .num (.pos n) => if n.toNat ≤ i64Max then s!"i{n.toNat}" else "s"
-  | .num (.neg i) => s!"i{i.toInt}"
+  | .num (.neg i) => s!"i{i.val.toInt}"
   | .num (.flt b) => s!"d{b.toNat}"
   | .str _ => "s"
   | .arr _ => "s"
@@ -181,7 +186,7 @@ def showErr : Err → String
   | .invalid (.mismatch f) => "err mismatch " ++ strHex f
   | .invalid (.missing f) => "err missing " ++ strHex f
   | .invalid (.extra ks) =>
-    s!"err extra {ks.length} {(ks.map utf8Len).foldl (· + ·) 0 + 2 * (ks.length - 1)}"
+    s!"err extra {(ks.map utf8Len).foldl (· + ·) 0 + 2 * (ks.length - 1)}"
   | .time .magnitude => "err time-magnitude"
   | .time .badString => "err time-string"
   | .time .badKind => "err time-kind"
@@ -233,22 +238,20 @@ def insertSorted (x : Int) : List Int → List Int
 def runSession (lib : TimeLib) : List SOp → St → List String → List String
   | [], _, acc => acc.reverse
   | .define et fs :: rest, st, acc =>
-    -- direct types cannot occur in a session (text DEFINE only): treat every entry through its type
-    let schema := schemaOfFields fs
-    let (r, st') :=
-      if (st.schemas.lookup et).isSome then ((Except.error Err.alreadyDefined : Except Err Unit), st)
-      else if schema.isEmpty then (.error .emptySchema, st)
-      else (.ok (), { st with schemas := st.schemas ++ [(et, schema)] })
-    runSession lib rest st' ((match r with | .ok _ => "ok" | .error e => showErr e) :: acc)
+    -- a session defines through DEFINE text only: every entry must be a spec
+    match fs.mapM (fun (k, f) => match f with | .inl s => some (k, s) | .inr _ => none) with
+    | none => runSession lib rest st ("bad-op" :: acc)
+    | some specs =>
+      let (r, st') := define st et specs
+      runSession lib rest st' ((match r with | .ok _ => "ok" | .error e => showErr e) :: acc)
   | .store et ctx p :: rest, st, acc =>
-    if !calCovers (match lib with | ⟨_⟩ => []) p then runSession lib rest st ("bad-op" :: acc) else
     let (s, st') := showStore lib st et ctx p
     runSession lib rest st' ((if s.startsWith "ok" then "ok" else s) :: acc)
   | .query et key :: rest, st, acc =>
     let ids := (query st et none).foldl (fun l e =>
       match e.payload.lookup key with
       | some (.num (.pos n)) => insertSorted (n.toNat : Int) l
-      | some (.num (.neg i)) => insertSorted i.toInt l
+      | some (.num (.neg i)) => insertSorted i.val.toInt l
       | _ => l) []
     runSession lib rest st (("rows " ++ ",".intercalate (ids.map toString)) :: acc)
 
